@@ -126,6 +126,24 @@ func sampleInputs(seed int64, n int) []sampleIn {
 	in = append(in, sampleIn{"equal25", eq(25, 40_000_000_000), allB(25)})
 	in = append(in, sampleIn{"equal3", eq(3, 7_000_000), []bool{true, true, false}})
 	in = append(in, sampleIn{"equal3", eq(3, 7_000_000), []bool{true, false, false}})
+	// publish gate boundary: k equal members of the second chain holding R, one validator without an account there holding
+	// (R + d) / 2, i.e. the members' stake is two thirds of the total minus / plus a hair (d = +2 / -2) or exactly two thirds
+	// (d = 0): the floored powers of the members then sum to the threshold or to a few units below it
+	for _, k := range []int{2, 3, 4, 5, 6, 7} {
+		for _, d := range []int64{2, 0, -2} {
+			x := new(big.Int).Add(bi("2000000000000000"), new(big.Int).Lsh(new(big.Int).Rand(rnd, bi("1000000000000")), 1)) // even
+			r := new(big.Int).Mul(x, big.NewInt(int64(k)))
+			y := new(big.Int).Rsh(new(big.Int).Add(r, big.NewInt(d)), 1)
+			g := sampleIn{kind: "gate"}
+			for i := 0; i < k; i++ {
+				g.shares = append(g.shares, new(big.Int).Set(x))
+				g.inB = append(g.inB, true)
+			}
+			g.shares = append(g.shares, y)
+			g.inB = append(g.inB, false)
+			in = append(in, g)
+		}
+	}
 	// random vectors, random membership on the second chain (both sides of the gate)
 	for len(in) < n-16 {
 		k := 2 + rnd.Intn(7)
